@@ -27,7 +27,14 @@ pub struct PfParams {
     pub a_text: String,
 }
 impl PfParams {
+    /// the parameter object handed to dump_json. A third of the tuples are built the other public way
+    /// (`new` with another size, then `set_m`): the dumped file must not depend on how m got there.
     fn params(&self) -> SetSketchParams {
+        if self.m % 3 == 1 {
+            let mut p = SetSketchParams::new(f64::from_bits(self.b_bits), 7, f64::from_bits(self.a_bits), self.q);
+            p.set_m(self.m as usize);
+            return p;
+        }
         SetSketchParams::new(f64::from_bits(self.b_bits), self.m, f64::from_bits(self.a_bits), self.q)
     }
 }
@@ -50,6 +57,12 @@ pub struct PfPlan {
     /// clock fault: the file system has coarse timestamps - every dump leaves the same modification time
     #[serde(default)]
     pub coarse_mtime: bool,
+    /// a second directory of the same process receives other parameters between every dump and its reload
+    #[serde(default)]
+    pub second_dir: bool,
+    /// after the sequential part two threads dump and reload different parameters in their own directories at the same time
+    #[serde(default)]
+    pub concurrent: bool,
 }
 
 static DIRSEQ: AtomicU64 = AtomicU64::new(0);
@@ -264,10 +277,14 @@ impl Scenario for ParamFile {
             dumps[0] = t1;
             dumps[1] = t2;
         }
-        PfPlan { dumps, faults: IoFaults::default(), crash_offsets: None, enospc_at: None, coarse_mtime: rng.chance(0.4) }
+        let coarse_mtime = rng.chance(0.4);
+        let second_dir = rng.chance(0.25);
+        let concurrent = rng.chance(0.04);
+        PfPlan { dumps, faults: IoFaults::default(), crash_offsets: None, enospc_at: None, coarse_mtime, second_dir, concurrent }
     }
     fn execute(&self, plan: &PfPlan, ctx: &mut Ctx) -> Result<(), Violation> {
         let dir = Scratch::new("in");
+        let dir2 = Scratch::new("in2");
         // missing file first, then a directory that does not exist at all
         ctx.ev("reload-missing", 0);
         ctx.count("fault:missing-file");
@@ -305,6 +322,16 @@ impl Scenario for ParamFile {
                     }
                 }
             }
+            if plan.second_dir {
+                // another directory of the same process gets other parameters: neither file may influence the other
+                let mut d = plan.dumps[(di + 1) % plan.dumps.len()].clone();
+                d.q = if d.q == u64::MAX { 1 } else { d.q + 1 };
+                d.m = d.m.rotate_left(1) ^ 2;
+                ctx.count("fault:other-directory-dumped-in-between");
+                let r2 = caught(|| d.params().dump_json(&dir2.0));
+                ctx.check("C20", "dump-succeeds", matches!(r2, Ok(Ok(()))), || format!("dump_json into a second directory failed: {:?}", r2))?;
+                check_reload(ctx, "second directory, after complete dump", &reload_inproc(&dir2.0), Some(&d))?;
+            }
             let content = std::fs::read(dir.file()).unwrap_or_default();
             if content != e {
                 // not a verdict by itself (the property speaks about what reload returns); the reload below decides
@@ -336,6 +363,47 @@ impl Scenario for ParamFile {
         ctx.nontrivial = true;
         for b in &e {
             ctx.out.add(*b as u64);
+        }
+        if plan.concurrent {
+            // two caller threads, each with its own directory and its own parameters, released together; the
+            // verdict (every reload returns what that thread dumped last) does not depend on the interleaving
+            ctx.count("fault:two-threads-dump-and-reload-at-once");
+            let _ = crate::alloc_track::disarm();
+            let pa = plan.dumps[0].clone();
+            let mut pb = plan.dumps[plan.dumps.len() - 1].clone();
+            pb.q = if pb.q == u64::MAX { 3 } else { pb.q + 1 };
+            let bar = std::sync::Arc::new(std::sync::Barrier::new(2));
+            let mut hs = vec![];
+            for (t, pp) in [pa, pb].into_iter().enumerate() {
+                let bar = bar.clone();
+                let d = if t == 0 { dir.0.clone() } else { dir2.0.clone() };
+                hs.push(std::thread::spawn(move || -> Result<(), String> {
+                    bar.wait();
+                    for it in 0..24u64 {
+                        let mut p = pp.clone();
+                        p.m = p.m.wrapping_add(3 * it);
+                        match caught(|| p.params().dump_json(&d)) {
+                            Ok(Ok(())) => {}
+                            r => return Err(format!("thread {} iteration {}: dump_json failed: {:?}", t, it, r)),
+                        }
+                        let r = reload_inproc(&d);
+                        match as_params(&r) {
+                            Some(g) => roundtrip_ok(&p, &g).map_err(|e| format!("thread {} iteration {}: {}", t, it, e))?,
+                            None => return Err(format!("thread {} iteration {}: reload of a complete file gave {:?}", t, it, r)),
+                        }
+                    }
+                    Ok(())
+                }));
+            }
+            let mut res = Ok(());
+            for h in hs {
+                match h.join() {
+                    Ok(Ok(())) => {}
+                    Ok(Err(e)) => res = Err(e),
+                    Err(_) => res = Err("a dumping thread panicked".to_string()),
+                }
+            }
+            ctx.check("C20", "roundtrip-returns-dumped-parameters", res.is_ok(), || format!("two threads at once: {}", res.clone().unwrap_err()))?;
         }
         Ok(())
     }
@@ -398,6 +466,16 @@ fn shrink_pf(plan: &PfPlan) -> Vec<PfPlan> {
     if plan.coarse_mtime {
         let mut p = plan.clone();
         p.coarse_mtime = false;
+        out.push(p);
+    }
+    if plan.second_dir {
+        let mut p = plan.clone();
+        p.second_dir = false;
+        out.push(p);
+    }
+    if plan.concurrent {
+        let mut p = plan.clone();
+        p.concurrent = false;
         out.push(p);
     }
     // simpler parameter values
@@ -544,7 +622,7 @@ impl Scenario for ParamFileShim {
             eintr_read: if rng.chance(0.5) { Some(rng.range(1, 4) as u32) } else { None },
         };
         let enospc_at = if rng.chance(0.5) { Some(rng.range(0, 60) as u32) } else { None };
-        PfPlan { dumps, faults, crash_offsets: None, enospc_at, coarse_mtime: false }
+        PfPlan { dumps, faults, crash_offsets: None, enospc_at, coarse_mtime: false, second_dir: false, concurrent: false }
     }
     fn execute(&self, plan: &PfPlan, ctx: &mut Ctx) -> Result<(), Violation> {
         let dir = Scratch::new("sh");
